@@ -249,6 +249,11 @@ structure Ext where
   osToRead : GoString → GoString → Bool × GoErr := fun _ _ => (true, none)
   /-- `os.Lstat(path)` -/
   osLstat : GoString → GoFileInfo × GoErr := fun _ => ({}, none)
+  /-- the order in which `for k, v := range m` visits a map of strings (Go leaves it open; a theorem states what it assumes —
+      normally that the result is a permutation of the entries) -/
+  mapOrder : List (GoString × GoString) → List (GoString × GoString) := fun l => l
+  /-- `fmt.Sprintf("%d", n)` -/
+  fmtInt : Int → GoString := fun _ => []
   /-- `knownhosts.Normalize(address)` -/
   normalizeAddr : GoString → GoString := fun a => a
   /-- `bufio.NewScanner(file)`: the lines `Scan` / `Text` deliver for the file opened on this path (scanning stops silently
@@ -301,6 +306,14 @@ def goReadByte (r : GoString) : UInt8 × GoErr × GoString :=
   match r with
   | [] => (0, goEOF, [])
   | b :: rest => (b, none, rest)
+
+/-- `fmt.Sprintf("%v", x)` / `("%d", x)` by the type of `x` -/
+class GoFmt (α : Type) where
+  fmt : Ext → α → GoString
+
+instance : GoFmt Bool := ⟨fun _ b => if b then [116, 114, 117, 101] else [102, 97, 108, 115, 101]⟩
+instance : GoFmt Int := ⟨fun ext n => ext.fmtInt n⟩
+instance : GoFmt GoString := ⟨fun _ s => s⟩
 
 /-- an operation on the world: it fails (and changes nothing) or it succeeds and joins the history -/
 def goEffect (ext : Ext) (hist : List GoFOp) (op : GoFOp) : List GoFOp × GoErr :=
